@@ -213,8 +213,9 @@ def parse_rt(out):
     nb = out[1]
     return 0, bytes(out[2:2 + nb]), out[2 + nb:]
 
-def run_rt(ck, hb, order, cases, stats):
-    lines = [rt_line(c) for c in cases]
+STEMS = ["./omfile_p", "omdir.v2/m", "omfile.v1", "omdir.v2/../omfile_q", "omdir.v2/m.x.y"]     # as in harness op 16
+def run_rt(ck, hb, order, cases, stats, style=None):
+    lines = [rt_line(c) if style is None else "c07 16 %d %d %s %d" % (style, c[0], " ".join(map(str, c[1])), c[2]) for c in cases]
     rc, io, err = core.run_harness(hb, lines, ck.workdir, tag="rt")
     impl = [parse_rt(ints(l)) for l in io]
     # model: encoding + load on the view of the bytes the library wrote
@@ -228,7 +229,7 @@ def run_rt(ck, hb, order, cases, stats):
     for n, ((fmt, o, tk), (st, data, oc)) in enumerate(zip(cases, impl)):
         line = lines[n]
         enc = ints(mo[2 * n]); mload = ints(mo[2 * n + 1])
-        tag = "%s %s -> load as %s" % (FN[fmt], describe(o), KN[tk])
+        tag = "%s %s -> load as %s" % (FN[fmt], describe(o), KN[tk]) + ("" if style is None else " [path %s.%s]" % (STEMS[style], FN[fmt]))
         stats["dist"]["%s/%s" % (FN[fmt], KN[o[0]])] = stats["dist"].get("%s/%s" % (FN[fmt], KN[o[0]]), 0) + 1
         if st != 0:
             ck.violation("save fails: %s %s" % (FN[fmt], describe(o)), "save raised %s for %s" % (ERR.get(st, st), tag),
@@ -454,6 +455,7 @@ def main(replay=None):
         for l in rp.get("cases", []):
             w = [int(t) for t in l.split()[1:]]
             if w[0] == 1: cases.append((w[1], w[2:-1], w[-1]))
+            if w[0] == 16: run_rt(ck, hb, order, [(w[2], w[3:-1], w[-1])], stats, style=w[1])
         if cases: run_rt(ck, hb, order, cases, stats)
         if rp.get("kind") in ("mat", "used", "csc", "convert"):
             lines = rp["cases"]; rc, io, err = core.run_harness(hb, lines, ck.workdir, tag="mat")
@@ -470,6 +472,18 @@ def main(replay=None):
                 corpus.append((w[1], w[2:-1], w[-1]))
     cases = corpus + exhaustive_small(ck.rng) + gen_rt_cases(ck.rng, 700 if quick else 6000)
     run_rt(ck, hb, order, cases, stats)
+    # the same relation through file names with dots before the extension; the model's path -> format function first
+    plines = []; pexp = []
+    for st in range(len(STEMS)):
+        for f in (0, 1, 2, 3):
+            pth = ("%s.%s" % (STEMS[st], FN[f])).encode(); plines.append("c07 9 %d %s" % (len(pth), " ".join(map(str, pth)))); pexp.append(f)
+    for pl, pe, mo_ in zip(plines, pexp, safe_model(ck, plines)):
+        if ints(mo_) != [pe]:
+            ck.violation("path model: %s" % pl[:40], "the model's suffix_of_path gives %s for a path whose last suffix is %s" % (mo_, FN[pe]), dict(kind="path", cases=[pl]), found_input=False)
+    small = [c for c in exhaustive_small(ck.rng) if len(c[1]) <= 12]
+    dotted = small[::3] + gen_rt_cases(ck.rng, 40 if quick else 400)
+    for st in range(len(STEMS)):
+        run_rt(ck, hb, order, dotted[st::len(STEMS)] + small[st::7], stats, style=st)
     nmat = run_mat(ck, hb, ck.rng, 60 if quick else 600, stats)
     nused = run_used(ck, hb, ck.rng, 80 if quick else 600, stats)
     ncsc = run_csc(ck, hb, ck.rng, 60 if quick else 500, stats)
